@@ -16,6 +16,11 @@ def do_case(ctx, inp):
     o = build(a)
     t = snap(o)
     lv = leaves_of(t)
+    # the leaves range over what the caller DECLARED for them (values are drawn from there; the built object must agree)
+    decl = {k: v for k, v in declared_bounds(a).items() if k in lv}
+    if any(tuple(lv[k]) != tuple(v) for k, v in decl.items()):
+        ctx.tags["object-holds-other-leaf-bounds-than-declared"] += 1
+        lv = {**lv, **decl}
     named_comp = [k for k in A if k not in lv]
     ctx.case(inp, nontrivial=depth(t) > 1 or any(b != (0, 1) for b in lv.values()),
              tags=tags_of(t) | ({"assume-names-compound"} if named_comp else set())
@@ -90,6 +95,9 @@ def run(ctx):
         a, o, t = gen_valid(ctx.rng, ctx.quick, prefix_p=0.2, empty_p=0.04)
         if ctx.rng.random() < 0.12:
             a, o, t = gen_valid_signed_sum(ctx.rng)     # explicit signs against thresholds of either sign, leaves around zero
+        elif ctx.rng.random() < 0.12:
+            a, o, t = gen_valid_huge(ctx.rng)           # a threshold over a quantity far beyond 16 bits
+            ctx.tags["huge-threshold-stream"] += 1
         for _ in range(3):
             A = gen_interp(ctx.rng, t, total=False, in_bounds=ctx.rng.random() < 0.7)
             do_case(ctx, {"ast": a, "A": {k: list(v) for k, v in A.items()}})
